@@ -28,6 +28,7 @@ from .pytr import TranslatorError, find_function, segment
 
 PURES = "rzilcompiler/Transformer/Pures"
 EFFECTS = "rzilcompiler/Transformer/Effects"
+HYBRIDS = "rzilcompiler/Transformer/Hybrids"
 CLASSES = [  # (directory, file, class, method, operator field or None, enum class or None, operand attributes -> hole index)
     (PURES, "Cast.py", "Cast", "il_exec", None, None, {}),
     (PURES, "BitOp.py", "BitOp", "il_exec", "op_type", "BitOperationType", {}),
@@ -42,6 +43,7 @@ CLASSES = [  # (directory, file, class, method, operator field or None, enum cla
     (EFFECTS, "MemStore.py", "MemStore", "il_write", None, None, {"va": 0, "data_var": 1}),
     (EFFECTS, "NOP.py", "NOP", "il_write", None, None, {}),
     (EFFECTS, "Empty.py", "Empty", "il_write", None, None, {}),
+    (HYBRIDS, "SubRoutine.py", "SubRoutine", "il_read", None, None, {}),
 ]
 
 
@@ -158,6 +160,16 @@ class ClsTr:
                     self.err("int() of something that is not a bit width", e)
                 return k(v)
             return self.eval(e.args[0], env, ki)
+        if isinstance(e, ast.Compare) and len(e.ops) == 1 and isinstance(e.ops[0], (ast.Eq, ast.NotEq)) \
+                and isinstance(e.comparators[0], ast.Constant) and isinstance(e.comparators[0].value, int) and not isinstance(e.comparators[0].value, bool):
+            n = e.comparators[0].value
+
+            def kw(a):
+                if not isinstance(a, W):
+                    self.err("equality with an integer of something that is not a bit width", e)
+                eq = f"(N.eqb {a.coq} {n}%N)"
+                return k(B(eq if isinstance(e.ops[0], ast.Eq) else f"(negb {eq})"))
+            return self.eval(e.left, env, kw)
         if isinstance(e, ast.Compare) and len(e.ops) == 1 and isinstance(e.ops[0], (ast.Gt, ast.GtE, ast.Lt, ast.LtE)):
             def kc(a):
                 def kc2(b):
@@ -267,6 +279,16 @@ class ClsTr:
         if isinstance(s, ast.Assign) and len(s.targets) == 1 and isinstance(s.targets[0], ast.Name):
             name = s.targets[0].id
             return self.eval(s.value, env, lambda v: cont({**env, name: v}))
+        if isinstance(s, ast.AugAssign) and isinstance(s.op, ast.Add) and isinstance(s.target, ast.Name) and isinstance(env.get(s.target.id), S):
+            name = s.target.id
+
+            def ka(v):
+                if isinstance(v, W):
+                    v = S([("h", f"SInt (Z.of_N {v.coq})")])
+                if not isinstance(v, S):
+                    self.err("`+=` of a non-string onto the text", s)
+                return cont({**env, name: S(env[name].pieces + v.pieces)})
+            return self.eval(s.value, env, ka)
         if isinstance(s, ast.If):
             return self.eval(s.test, env, lambda c: self.mkif(self.as_bool(c, s.test), lambda: self.block(s.body, env, cont), lambda: self.block(s.orelse, env, cont)))
         if isinstance(s, ast.Return) and s.value is not None:
@@ -285,7 +307,7 @@ class ClsTr:
         # re-tokenise the concatenation so that "F"+"LT(" is one identifier
         toks, holes = [], [p[1] for p in pieces if isinstance(p, tuple)]
         hi, pos = 0, 0
-        for m in re.finditer(r'\s+|([A-Za-z_][A-Za-z_0-9]*)|([(),])|(\x00)|"([A-Za-z_0-9]*)"', text_only):
+        for m in re.finditer(r'\s+|([A-Za-z_][A-Za-z_0-9]*)|([(),])|(\x00)|"([A-Za-z_0-9]*)"|(\d+)', text_only):
             if m.start() != pos:
                 self.err(f"unexpected character in emitted text {text_only!r}", node)
             pos = m.end()
@@ -298,6 +320,8 @@ class ClsTr:
                 hi += 1
             elif m.group(4) is not None:
                 toks.append(("hole", f"SStr {coq_str(m.group(4))}"))
+            elif m.group(5):
+                toks.append(("hole", f"SInt {int(m.group(5))}%Z"))
         if pos != len(text_only):
             self.err(f"unexpected character in emitted text {text_only!r}", node)
         i = 0
